@@ -162,6 +162,31 @@ def eval_small(t, val, atoms=None):
             return r & m, w
         if t.op == '==':
             return int(vs[0][0] == vs[1][0]), w
+        if t.op in ('<<', '>>', 'a>>', '<<<', '>>>') and len(vs) == 2:
+            v, n_ = vs[0][0] & m, vs[1][0]
+            if t.op == '<<':
+                return ((v << n_) & m) if n_ < w else 0, w
+            if t.op == '>>':
+                return (v >> n_) if n_ < w else 0, w
+            if t.op == 'a>>':
+                sv = v - (1 << w) if v >> (w - 1) else v
+                return (sv >> min(n_, w)) & m, w
+            r_ = (n_ & 0x1F) % w
+            if t.op == '<<<':
+                return ((v << r_) | (v >> (w - r_))) & m if r_ else v, w
+            return ((v >> r_) | (v << (w - r_))) & m if r_ else v, w
+        if t.op in ('<<<c_rez', '<<<c_cf', '>>>c_rez', '>>>c_cf') and len(vs) == 3:
+            v, n_, c_ = vs[0][0] & m, vs[1][0], vs[2][0] & 1
+            r_ = (n_ & 0x1F) % (w + 1)
+            big = (v << 1) | c_
+            full = (1 << (w + 1)) - 1
+            if t.op.startswith('<<<'):
+                rot = ((big << r_) | (big >> (w + 1 - r_))) & full
+            else:
+                rot = ((big >> r_) | (big << (w + 1 - r_))) & full
+            return ((rot >> 1) & m, w) if t.op.endswith('rez') else (rot & 1, w)
+        if t.op == '!' and len(vs) == 1:
+            return (~vs[0][0]) & m, w
         if t.op == 'parity' and len(vs) == 1:
             return 1 - bin(vs[0][0] & 0xFF).count('1') % 2, 1
         if t.op == '*':
